@@ -49,7 +49,7 @@ class ViolationBuilder:
             message=f"Missing mandatory field: {field_name}",
             file_path=file_path,
             line=line,
-            column=1,
+            column=0,  # a file-level finding: the first line may be empty
             severity=Severity.ERROR,
             suggestion=f"Add '{field_name}:' field to file header",
         )
